@@ -1,5 +1,6 @@
 """C10 Stale, duplicate, out-of-order messages (engine E1, exploration). See DESIGN.md section 7."""
-from .common import generic_run, FinalDbMonitor, launched_instances
+from .common import (
+    generic_run, FinalDbMonitor, launched_instances, reload_monitors)
 
 PID = 'C10'
 ENGINE = 'E1'
@@ -88,6 +89,8 @@ def run(params):
     p['rates'] = RATES
     return generic_run(PID, p, knobs=KNOBS, policy='any',
                        plan_kw={'p_fail': 0.6, 'p_vanish': 0.1},
-                       monitors=[FinalDbMonitor()], end_check=end_check,
+                       monitors=[FinalDbMonitor()] + reload_monitors(
+                           params['seed'], 'c10', every=4),
+                       end_check=end_check,
                        world_cfg={'intra_job_reorder': True},
                        probe_key='stale_submit_message')
